@@ -1,8 +1,117 @@
-"""Known findings: classification by mechanism (DESIGN section 7)."""
+"""Known findings: classification by mechanism (DESIGN section 7).
+
+known_findings.json is committed and never written at run time.  An *open* finding carries a matcher: a conjunction of
+observational conditions over the violation record (blamed step, kind, removed/added statements of the blamed rewrite,
+exception site, source/result text) and optionally the name of a counterfactual repair (vflib/repairs.py): the violation
+is then accepted as that finding only if it disappears when the case is re-run with the narrow repair active.
+A *fixed* finding suppresses nothing.
+"""
 from __future__ import annotations
 
+import json
+import os
+import re
 from typing import Any, Optional
 
+HERE = os.path.dirname(os.path.dirname(os.path.abspath(__file__)))
+_FINDINGS: Optional[list] = None
+_REPAIR_CACHE: dict = {}
 
-def classify(ctx: Any, case: dict, violation: dict) -> Optional[str]:
+
+def findings() -> list:
+    global _FINDINGS
+    if _FINDINGS is None:
+        path = os.path.join(HERE, "known_findings.json")
+        _FINDINGS = json.load(open(path))["findings"] if os.path.exists(path) else []
+    return _FINDINGS
+
+
+def _any(rx: str, texts: list) -> bool:
+    pat = re.compile(rx, re.S)
+    return any(pat.search(t or "") for t in texts)
+
+
+def _matches(m: dict, ctx: Any, case: dict, v: dict) -> bool:
+    blame = v.get("blame") or {}
+    step = blame.get("step") or v.get("step")
+    exc = v.get("exception") or {}
+    site = exc.get("site") or {}
+    removed = list(blame.get("removed") or v.get("removed") or [])
+    added = list(blame.get("added") or v.get("added") or [])
+    if "kinds" in m and v.get("kind") not in m["kinds"]:
+        return False
+    if "step" in m and step not in (m["step"] if isinstance(m["step"], list) else [m["step"]]):
+        return False
+    if "exception" in m:
+        e = m["exception"]
+        if e.get("type") and exc.get("type") != e["type"]:
+            return False
+        if e.get("function") and site.get("function") != e["function"]:
+            return False
+        if e.get("text") and e["text"] not in (site.get("text") or ""):
+            return False
+    if "removed" in m and not _any(m["removed"], removed):
+        return False
+    if "added" in m and not _any(m["added"], added):
+        return False
+    if "not_added" in m and _any(m["not_added"], added):
+        return False
+    if "source" in m and not _any(m["source"], [ctx.source_text]):
+        return False
+    if "not_source" in m and _any(m["not_source"], [ctx.source_text]):
+        return False
+    if "result" in m:
+        res = "\n".join(str(s) for s in (ctx.rec.result or [])) if ctx.rec is not None else ""
+        if not _any(m["result"], [res]):
+            return False
+    if "viol" in m and not _any(m["viol"], [json.dumps(v, default=str)]):
+        return False
+    if "traits_all" in m and not set(m["traits_all"]) <= set(case.get("traits") or []):
+        return False
+    if "layout" in m and case.get("layout", "normal") not in m["layout"]:
+        return False
+    return True
+
+
+def _cured_by(repair: str, ctx: Any, case: dict, v: dict) -> bool:
+    """re-run the case with the narrow repair active; cured iff no violation of the same property and kind remains on the
+    same instance"""
+    from . import evalcase, repairs
+
+    key = (repair, json.dumps(case, sort_keys=True, default=str))
+    if key not in _REPAIR_CACHE:
+        c2 = dict(case)
+        c2["_no_kf"] = True
+        with repairs.active(repair):
+            _REPAIR_CACHE[key] = evalcase.evaluate(c2)
+        if len(_REPAIR_CACHE) > 64:
+            _REPAIR_CACHE.pop(next(iter(_REPAIR_CACHE)))
+    res = _REPAIR_CACHE[key]
+    if res.get("verdict") == "inconclusive":
+        return False
+    for w in res.get("violations") or []:
+        if w.get("property") == v.get("property") and w.get("kind") == v.get("kind") and w.get("instance") == v.get("instance"):
+            return False
+    if res.get("n_violations", 0) > len(res.get("violations") or []):
+        return False  # truncated list: cannot tell
+    return True
+
+
+def classify(ctx: Any, case: dict, v: dict) -> Optional[str]:
+    if case.get("_no_kf"):
+        return None
+    for f in findings():
+        if f.get("status") != "open":
+            continue
+        if v.get("property") not in f.get("properties", []):
+            continue
+        for m in f.get("match", []):
+            try:
+                if not _matches(m, ctx, case, v):
+                    continue
+                if m.get("repair") and not _cured_by(m["repair"], ctx, case, v):
+                    continue
+                return f["id"]
+            except re.error:
+                continue
     return None
